@@ -159,7 +159,14 @@ def matrix(extra_pairs=()):
             prop = json.load(open(os.path.join(dd, "meta.json")))["property"]
             jobs.append((name, prop))
     jobs += list(extra_pairs)
+    only = [x for x in os.environ.get("MATRIX_ONLY", "").split(",") if x]      # restrict to these properties, merge into the file
     res = {}
+    if only:
+        jobs = [(n, p_) for (n, p_) in jobs if p_ in only]
+        try:
+            res = json.load(open(os.path.join(base, "results.json")))
+        except Exception:  # noqa
+            res = {}
     with cf.ThreadPoolExecutor(max_workers=2) as ex:
         futs = {ex.submit(runwt, os.path.join(base, n), p): (n, p) for n, p in jobs}
         for f in cf.as_completed(futs):
